@@ -73,3 +73,20 @@ def contexts(body_text, prelude=TRACE_PRELUDE):
     yield "top", prelude + body_text
     yield "fn", prelude + "w = ||\n" + indent(body_text) + "w()\n"
     yield "locals60", prelude + "".join("d%d = %d\n" % (i, i) for i in range(60)) + body_text
+
+
+def replay_witnesses(chk, worker):
+    """Replays the witness of every finding recorded for this property: a witness that still fails is reported under
+    the exact key witness:<id> (and therefore printed as KNOWN-FINDING); one that passes is silent."""
+    n = 0
+    for f in chk.known:
+        wit = f.get("witness") or {}
+        if "src" not in wit or "expect_stdout" not in wit:
+            continue
+        n += 1
+        r = worker.exec(wit["src"], timeout=20, limit_ms=4000)
+        got = r.get("stdout", "") if r.get("outcome") in ("ok", "runtime_error") else None
+        if r.get("outcome") != wit.get("expect_outcome", "ok") or got != wit["expect_stdout"]:
+            chk.violation("witness:" + f["id"], "witness of %s still fails: expected %r, got %s %r" % (f["id"], wit["expect_stdout"], r.get("outcome"), got),
+                          {"src": wit["src"], "expected": wit["expect_stdout"], "real": real_view(r)})
+    return n
